@@ -1,0 +1,126 @@
+//go:build verif
+
+package backends
+
+import (
+	"context"
+	"errors"
+	"fmt"
+	"io"
+	"os"
+	"path/filepath"
+	"strings"
+	"sync"
+)
+
+// verifS3Client returns a directory-backed S3Client when GROG_VERIF_S3DIR is set (verification builds only), so that the
+// real S3Cache key layout and the real RemoteWrapper run against a remote store the harness can inspect and fault.
+// GROG_VERIF_S3FAULTS is a comma separated list of failing operations:
+//
+//	get-result get-blob head-blob put-blob-early put-blob-late put-result-early put-result-late head-result
+func verifS3Client() S3Client {
+	dir := os.Getenv("GROG_VERIF_S3DIR")
+	if dir == "" {
+		return nil
+	}
+	faults := map[string]bool{}
+	for _, f := range strings.Split(os.Getenv("GROG_VERIF_S3FAULTS"), ",") {
+		if f != "" {
+			faults[f] = true
+		}
+	}
+	return &dirS3{dir: dir, faults: faults}
+}
+
+type dirS3 struct {
+	dir    string
+	faults map[string]bool
+	mu     sync.Mutex
+}
+
+var errInjected = errors.New("injected remote fault")
+
+func kindOf(key string) string {
+	switch {
+	case strings.Contains(key, "/cas/"):
+		return "blob"
+	case strings.Contains(key, "/target/"):
+		return "result"
+	}
+	return "other"
+}
+
+func (d *dirS3) path(bucket, key string) string { return filepath.Join(d.dir, bucket, key) }
+
+func (d *dirS3) log(op, bucket, key string, err error) {
+	d.mu.Lock()
+	defer d.mu.Unlock()
+	f, ferr := os.OpenFile(filepath.Join(d.dir, "_oplog"), os.O_APPEND|os.O_CREATE|os.O_WRONLY, 0644)
+	if ferr != nil {
+		return
+	}
+	defer f.Close()
+	fmt.Fprintf(f, "%d %s %s/%s %v\n", os.Getpid(), op, bucket, key, err == nil)
+}
+
+func (d *dirS3) GetObject(_ context.Context, bucket, key string) (rc io.ReadCloser, err error) {
+	defer func() { d.log("get", bucket, key, err) }()
+	if d.faults["get-"+kindOf(key)] {
+		return nil, errInjected
+	}
+	return os.Open(d.path(bucket, key))
+}
+
+func (d *dirS3) PutObject(_ context.Context, bucket, key string, body io.Reader) (err error) {
+	defer func() { d.log("put", bucket, key, err) }()
+	if d.faults["put-"+kindOf(key)+"-early"] {
+		return errInjected
+	}
+	data, err := io.ReadAll(body)
+	if err != nil {
+		return err
+	}
+	if d.faults["put-"+kindOf(key)+"-late"] {
+		return errInjected
+	}
+	p := d.path(bucket, key)
+	if err := os.MkdirAll(filepath.Dir(p), 0755); err != nil {
+		return err
+	}
+	tmp, err := os.CreateTemp(filepath.Dir(p), "tmp-*")
+	if err != nil {
+		return err
+	}
+	if _, err := tmp.Write(data); err != nil {
+		tmp.Close()
+		return err
+	}
+	if err := tmp.Close(); err != nil {
+		return err
+	}
+	return os.Rename(tmp.Name(), p)
+}
+
+func (d *dirS3) DeleteObject(_ context.Context, bucket, key string) (err error) {
+	defer func() { d.log("delete", bucket, key, err) }()
+	err = os.Remove(d.path(bucket, key))
+	if os.IsNotExist(err) {
+		return nil
+	}
+	return err
+}
+
+func (d *dirS3) ObjectExists(_ context.Context, bucket, key string) (ok bool, err error) {
+	defer func() { d.log("head", bucket, key, err) }()
+	if d.faults["head-"+kindOf(key)] {
+		return false, errInjected
+	}
+	_, serr := os.Stat(d.path(bucket, key))
+	if serr == nil {
+		return true, nil
+	}
+	if os.IsNotExist(serr) {
+		return false, nil
+	}
+	return false, serr
+}
